@@ -162,7 +162,7 @@ static void prime_request_counts(Context &gc) {
 		targets.push_back({p.ops.size() - 1, rc_key(CREATE_VM, f)});
 		Op &r = emit(DESTROY_VM); r.v = 0;
 	}
-	exec::Options opt;
+	exec::Options opt; opt.run_index = ~(uint64_t)0; // like the warm-up history: real allocator, nothing judged
 	exec::Report rep = exec::execute(p, opt);
 	for (auto &t : targets) gc.request_counts[t.second] = (rep.invalid || t.first >= rep.results.size()) ? 0 : rep.results[t.first].requests;
 }
@@ -250,6 +250,7 @@ static ops::Plan warmup_plan_base(Context &gc) {
 }
 
 static int req_count(Context &gc, int kind, uint32_t flags) {
+	if (gc.request_counts.empty() && gc.no_dry_run) return 0;
 	if (gc.request_counts.empty()) prime_request_counts(gc);
 	auto it = gc.request_counts.find(rc_key(kind, flags));
 	return it != gc.request_counts.end() ? it->second : 0;
